@@ -373,7 +373,7 @@ fn main() {
             let t = long_text(&mut r, size, &at);
             long_commands(&cx, &mut out, &t, "long-fixed");
         }
-        let n_long_cmd = if args.thorough { 150 } else { 10 };
+        let n_long_cmd = if args.thorough { 40 } else { 10 };
         for c in 0..n_long_cmd {
             let mut r = Rng::for_case(args.seed, 6_000_000 + c);
             let size = long_size(&mut r);
@@ -381,7 +381,7 @@ fn main() {
             long_commands(&cx, &mut out, &t, "long");
         }
         // line-type values of those sizes straight through encode (alone and nested)
-        let n_long_val = if args.thorough { 2500 } else { 160 };
+        let n_long_val = if args.thorough { 800 } else { 160 };
         for c in 0..n_long_val {
             let mut r = Rng::for_case(args.seed, 7_000_000 + c);
             let size = long_size(&mut r);
